@@ -149,6 +149,10 @@ SITE_CASES = {
         "module blocks\n  !! module doc\n  implicit none\n  private\n  public :: pubsub\ncontains\n  subroutine pubsub()\n    !! pub doc\n    integer :: a\n    common /blk/ a\n  end subroutine pubsub\n"
         "  subroutine privsub()\n    !! UNSELECTEDPRIV doc\n    integer :: a\n    common /blk/ a\n  end subroutine privsub\nend module blocks\n"
         "subroutine outside()\n  !! outside doc\n  integer :: a\n  common /blk/ a\nend subroutine outside\n"}, "proc_internals: true\n", ["UNSELECTEDPRIV"]),
+    "private_namelist": ({"src/nml.f90":
+        "module mm\n  !! module doc\n  implicit none\n  private\n  integer :: a\n    !! UNSELECTEDVAR doc\n  namelist /secretnml/ a\n    !! UNSELECTEDNML doc\nend module mm\n"
+        "module pp\n  !! public module\n  implicit none\n  integer :: b\n  namelist /pubnml/ b\n    !! pub nml doc\ncontains\n  subroutine s()\n    integer :: c\n    namelist /procnml/ c\n"
+        "  end subroutine s\nend module pp\n"}, "search: true\n", ["UNSELECTEDNML", "UNSELECTEDVAR"]),
 }
 
 
@@ -171,6 +175,10 @@ def site_cases(only=None):
                     if f.endswith((".html", ".json", ".js")) and not d.endswith(os.sep + "src"):
                         text = open(os.path.join(d, f), encoding="utf-8", errors="replace").read()
                         leaks += [f"{os.path.relpath(os.path.join(d, f), out)}: holds the text '{w}' of an entity the display options exclude" for w in forbidden if w in text]
+            if name == "private_namelist":
+                have = sorted(os.listdir(os.path.join(out, "namelist"))) if os.path.isdir(os.path.join(out, "namelist")) else []
+                if have != ["procnml.html", "pubnml.html"]:
+                    leaks.append(f"namelist pages written: {have}, expected those of the public namelist and of the namelist of the public procedure")
             bad = problems + p2 + leaks
             if bad:
                 return {"confirmed": True, "input": {"scenario": name, "files": files, "meta": meta}, "actual": bad[:6],
